@@ -458,7 +458,7 @@ def parseStep (st : PState) : SrcRule → PState
   | .style sels =>
     match parseStyle st.dict sels with
     | some x => { st with rules := parseAppend st.rules (.style x), expected := 3 }
-    | none => { st with expected := 3 }
+    | none => st            -- an ignored ruleset keeps `expected` (:315-318)
   | .media rs =>
     { st with rules := parseAppend st.rules (.media (rs.filterMap (parseStyle st.dict))), expected := 3 }
 
